@@ -1,13 +1,223 @@
 import Rooc.Wire
 import Rooc.Oracle
+import Rooc.Syntax.Format
+import Rooc.Syntax.FormatToks
+import Rooc.Syntax.Wire
+import Rooc.Syntax.Parse
+import Rooc.Syntax.Ref
 namespace Rooc.Drv.C11
-open Rooc Sexp
+open Rooc Sexp Rooc.Syntax
 
-/-- model requests for C11 (run at `Float` for the exact diff, at `Ext Rat` as oracle). -/
+/-- every expression slot of a program (objective, constraint sides, iterators, constants, domain bounds) -/
+def exprSlots (m : PModel) : List PExp :=
+  [m.objective]
+    ++ m.constraints.flatMap (fun c => [c.lhs, c.rhs] ++ c.iters)
+    ++ m.constants.map (·.2)
+    ++ m.domains.flatMap (fun d =>
+        (match d.ty with
+         | .boolean => []
+         | .nonNegReal a b | .real a b => a.toList ++ b.toList
+         | .intRange a b => [a, b]) ++ d.iters)
+
+/-- link between the text printer and its token twin (the object of the C11 theorems): on the
+expression sub-language, lexing `fmtExp e` gives exactly `fmtToks e`. Checked on every case. -/
+def linkOk (e : PExp) : Bool :=
+  !(coreExp e) ||
+    (match lex (fmtExp e).toList with
+     | .ok ts => ts == fmtToks e
+     | .unsupported => false)
+
+/-- model requests for C11: `(format <premodel>)` → the text `RoocParser::format` prints for that `PreModel`. -/
 def handle (α : Type) [Arith α] [Wire α] : List Sexp → Sexp
+  | [.atom "format", m] =>
+    match PModel.dec m with
+    | some m =>
+      match (exprSlots m).find? (fun e => !(linkOk e)) with
+      | some e => app "err" [.atom "printer-token-link-broken", .str (fmtExp e)]
+      | none => app "ok" [.str m.text]
+    | none => app "err" [.atom "decode"]
   | _ => app "err" [.atom "bad-request"]
 
-/-- exact oracle: the PROPERTY evaluated on the implementation's own answer. -/
+/-! ### oracle: the property itself on the implementation's output -/
+
+/-- numeric literals are compared by value (`2.0` is printed `2` and read back as an integer) -/
+def litVal : PExp → Option Rat
+  | .int v => some (v : Nat)
+  | .num t => if t.toList.all (fun c => isDigit c || c == '.') then some (Ref.ratOfLexeme t) else none
+  | _ => none
+
+mutual
+partial def sameExp (a b : PExp) : Bool :=
+  match litVal a, litVal b with
+  | some x, some y => x == y
+  | some _, none | none, some _ => false
+  | none, none =>
+    match a, b with
+    | .num s, .num t => s == t
+    | .bool x, .bool y => x == y
+    | .str x, .str y => x == y
+    | .prim x, .prim y => x == y
+    | .var x, .var y => x == y
+    | .cvar n xs, .cvar m ys => n == m && sameList xs ys
+    | .access n xs, .access m ys => n == m && sameList xs ys
+    | .call n xs, .call m ys => n == m && sameList xs ys
+    | .block n xs, .block m ys => n == m && sameList xs ys
+    | .scoped k vs is b, .scoped k' vs' is' b' => k == k' && vs == vs' && sameList is is' && sameExp b b'
+    | .bin o l r, .bin o' l' r' => o == o' && sameExp l l' && sameExp r r'
+    | .un o e, .un o' e' => o == o' && sameExp e e'
+    | _, _ => false
+partial def sameList : List PExp → List PExp → Bool
+  | [], [] => true
+  | a :: as, b :: bs => sameExp a b && sameList as bs
+  | _, _ => false
+end
+
+def sameOpt : Option PExp → Option PExp → Bool
+  | none, none => true
+  | some a, some b => sameExp a b
+  | _, _ => false
+
+def sameName : Option CName → Option CName → Bool
+  | none, none => true
+  | some (.plain a), some (.plain b) => a == b
+  | some (.compound a xs), some (.compound b ys) => a == b && sameList xs ys
+  | _, _ => false
+
+def sameType : PVarType → PVarType → Bool
+  | .boolean, .boolean => true
+  | .nonNegReal a b, .nonNegReal c d => sameOpt a c && sameOpt b d
+  | .real a b, .real c d => sameOpt a c && sameOpt b d
+  | .intRange a b, .intRange c d => sameExp a c && sameExp b d
+  | _, _ => false
+
+/-- binding powers of the real parser (regenerated table) for the round-trip condition -/
+def bp (o : BinOp) : Nat × Nat :=
+  let rule := match o with
+    | .add => "add" | .sub => "sub" | .mul => "mul" | .div => "div" | .and => "and_op" | .or => "or_op"
+    | .xor => "xor_op" | .implies => "implies_op" | .iff => "iff_op"
+  match getOp rule with
+  | some (.inR, p) => (p, p - 1)
+  | some (_, p) => (p, p)
+  | none => (0, 0)
+
+/-- first operand whose parentheses are needed by the parser but not printed:
+(parent, child, side).  Right child `c` under `p` needs them iff `lbp c ≤ rbp p`, left child iff
+`rbp c < lbp p`; the printer emits them iff `prec c < prec p`. -/
+partial def offender : PExp → Option (BinOp × BinOp × String)
+  | .bin p l r =>
+    let here : Option (BinOp × BinOp × String) :=
+      match l with
+      | .bin c _ _ => if (bp c).2 < (bp p).1 && !(Gen.binPrec c < Gen.binPrec p) then some (p, c, "left") else none
+      | _ => none
+    let here := here.orElse fun _ =>
+      match r with
+      | .bin c _ _ => if (bp c).1 ≤ (bp p).2 && !(Gen.binPrec c < Gen.binPrec p) then some (p, c, "right") else none
+      | _ => none
+    (here.orElse fun _ => offender l).orElse fun _ => offender r
+  | .un _ e => offender e
+  | .call _ as | .block _ as | .cvar _ as | .access _ as => as.findSome? offender
+  | .scoped _ _ its b => (its.findSome? offender).orElse fun _ => offender b
+  | _ => none
+
+/-- a name that `simple_variable` matches completely and that contains `_` is printed as `\name`, which
+`escaped_compound_variable` cannot read (it needs `name_index…`) -/
+def badEscapedName (n : String) : Bool :=
+  n.contains '_' &&
+    (let cs := n.toList
+     let cs := match cs with | '$' :: r => r | r => r
+     isSimpleRun cs)
+
+partial def expNames : PExp → List String
+  | .var n => [n]
+  | .cvar _ as | .access _ as | .call _ as | .block _ as => as.flatMap expNames
+  | .scoped _ _ its b => its.flatMap expNames ++ expNames b
+  | .bin _ l r => expNames l ++ expNames r
+  | .un _ e => expNames e
+  | _ => []
+
+def modelNames (m : PModel) : List String :=
+  expNames m.objective
+    ++ m.constraints.flatMap (fun c => (match c.name with | some (.plain n) => [n] | _ => []) ++ expNames c.lhs ++ expNames c.rhs ++ c.iters.flatMap expNames)
+    ++ m.constants.flatMap (fun k => expNames k.2)
+    ++ m.domains.flatMap (fun d => d.vars.flatMap (fun | .plain n => [n] | .compound _ xs => xs.flatMap expNames) ++ d.iters.flatMap expNames)
+
+/-- all expression slots of a program, in order, with a label -/
+def slots (m : PModel) : List (String × PExp) :=
+  [("objective", m.objective)]
+    ++ m.constraints.flatMap (fun c => [("constraint lhs", c.lhs), ("constraint rhs", c.rhs)] ++ c.iters.map (("constraint iteration", ·)))
+    ++ m.constants.map (fun k => ("constant " ++ k.1, k.2))
+    ++ m.domains.flatMap (fun d =>
+        (match d.ty with
+         | .boolean => []
+         | .nonNegReal a b | .real a b => (a.toList ++ b.toList).map (("domain bound", ·))
+         | .intRange a b => [("domain bound", a), ("domain bound", b)]) ++ d.iters.map (("domain iteration", ·)))
+
+def opName (o : BinOp) : String := o.name
+
+/-- does dropping the parentheses change the VALUE (not only the tree)? evaluated on the core fragment -/
+def valueChanges (a b : PExp) : Bool :=
+  let ea := Ref.ofPExp a
+  let eb := Ref.ofPExp b
+  let vs := Oracle.dedup (Oracle.vars ea ++ Oracle.vars eb)
+  (C09vals vs).any fun ρ => !(same (Sem.eval ρ ea) (Sem.eval ρ eb))
+where
+  C09vals (vs : List String) : List (String → Rat) :=
+    (Oracle.assignments [0, 1, 2, -1] (vs.take 4)).map fun a s =>
+      match a.find? (·.1 == s) with
+      | some p => p.2
+      | none => 1
+  same : Option Rat → Option Rat → Bool
+    | some v, some w => v == w
+    | none, none => true
+    | _, _ => false
+
+/-- compare the skeletons (everything that is not an expression slot) -/
+def sameSkeleton (a b : PModel) : Bool :=
+  a.objKind == b.objKind
+    && a.constraints.length == b.constraints.length
+    && (a.constraints.zip b.constraints).all (fun (x, y) =>
+          sameName x.name y.name && x.cmp == y.cmp && x.logic == y.logic && x.iterVars == y.iterVars && x.iters.length == y.iters.length)
+    && a.constants.map (·.1) == b.constants.map (·.1)
+    && a.domains.length == b.domains.length
+    && (a.domains.zip b.domains).all (fun (x, y) =>
+          x.vars.length == y.vars.length && (x.vars.zip y.vars).all (fun (v, w) => sameName (some v) (some w))
+          && x.iterVars == y.iterVars && x.iters.length == y.iters.length
+          && (match x.ty, y.ty with
+              | .boolean, .boolean => true
+              | .nonNegReal a b, .nonNegReal c d | .real a b, .real c d => a.isSome == c.isSome && b.isSome == d.isSome
+              | .intRange _ _, .intRange _ _ => true
+              | _, _ => false))
+
+/-- exact oracle: the PROPERTY evaluated on the implementation's own answer.
+`(check-format <premodel of s> <premodel of format(s) | reject | panic> <idempotent?> <models: same|differ|broke|repaired|na>)` -/
 def oracle : List Sexp → Sexp
+  | [.atom "check-format", before, after, .atom idem, .atom models] =>
+    match PModel.dec before with
+    | none => app "err" [.atom "decode"]
+    | some b =>
+      match after with
+      | .atom "panic" => app "violation" [.atom "parser-panics-on-formatted-text"]
+      | .atom "reject" =>
+        if b.objKind == .solve then app "violation" [.atom "solve-objective-printed-with-operand"]
+        else match (modelNames b).find? badEscapedName with
+          | some n => app "violation" [.atom "escaped-simple-variable-with-underscore", .str n]
+          | none => app "violation" [.atom "formatted-text-does-not-parse"]
+      | a =>
+        match PModel.dec a with
+        | none => app "err" [.atom "decode-after"]
+        | some a =>
+          if !(sameSkeleton b a) then app "violation" [.atom "format-changes-program-skeleton"]
+          else
+            match ((slots b).zip (slots a)).find? (fun (x, y) => !(sameExp x.2 y.2)) with
+            | some (x, y) =>
+              match offender x.2 with
+              | some (p, c, side) =>
+                app "violation" [.atom ("paren-dropped:" ++ opName p ++ "/" ++ opName c ++ "/" ++ side),
+                  .atom (if valueChanges x.2 y.2 then "value-changes" else "tree-only"), .str x.1, .str (fmtExp x.2)]
+              | none => app "violation" [.atom "format-changes-expression", .str x.1, .str (fmtExp x.2), .str (fmtExp y.2)]
+            | none =>
+              if models == "differ" || models == "broke" then app "violation" [.atom ("compiled-model-" ++ models)]
+              else if idem != "true" then app "violation" [.atom "format-not-idempotent"]
+              else app "ok" [.atom models]
   | _ => app "err" [.atom "bad-request"]
 end Rooc.Drv.C11
